@@ -485,6 +485,9 @@ impl Analyzable for Expression
 				location,
 			} =>
 			{
+				// The members of a structural literal are copied into it,
+				// even if the literal itself is a function argument.
+				analyzer.is_immediate_function_argument = false;
 				let members = members
 					.into_iter()
 					.map(|member| {
